@@ -79,6 +79,8 @@ class VClock:
             target = self.now + d
             while self.now < target and not getattr(self, "free", False):
                 self.cond.wait(0.5)
+            if getattr(self, "free", False) and self.now < target:
+                self.now = target      # free-running (shutdown): time passes as far as anybody sleeps
 
     def advance(self, d):
         with self.cond:
